@@ -367,9 +367,51 @@ def case_cwd(ctx, i, rng):
         os.chdir(old)
 
 
+def _twice(s):
+    return int(s) * 2
+
+
+def case_list_valued(ctx, i, rng):
+    """arguments whose value is a list because of nargs (typed, and with a plain callable as type) and a JSON-schema
+    argument whose schema has defaults: the lists and dicts the caller passes stay as they were"""
+    from jsonargparse import ActionJsonSchema
+
+    p = ArgumentParser(exit_on_error=False)
+    p.add_argument("--many", nargs="+", type=int)
+    p.add_argument("--pair", nargs=2, type=float)
+    p.add_argument("--tw", nargs="*", type=_twice)
+    p.add_argument("--js", action=ActionJsonSchema(schema={"type": "object", "properties": {"a": {"type": "integer", "default": 7}, "b": {"type": "string"}, "c": {"type": "object", "properties": {"d": {"type": "number", "default": 0.5}}}}}))
+    p.add_argument("--jl", nargs="+", action=ActionJsonSchema(schema={"type": "object", "properties": {"a": {"type": "integer", "default": 1}}}))
+    obj = {}
+    if rng.random() < 0.7:
+        obj["many"] = rng.choice([["1", "2"], [3], ["4", 5]])
+    if rng.random() < 0.5:
+        obj["pair"] = rng.choice([["1", 2], [0.5, "2.5"]])
+    if rng.random() < 0.5:
+        obj["tw"] = rng.choice([["1"], ["2", "3"], []])
+    if rng.random() < 0.7:
+        obj["js"] = rng.choice([{"b": "x"}, {"a": 1, "c": {}}, {"c": {"d": 2}}])
+    if rng.random() < 0.4:
+        obj["jl"] = [{}, {"a": 5}]
+    if not obj:
+        obj["many"] = ["7"]
+    w = dict(given=short(obj, 300))
+    ctx.evaluation(("list-valued", tuple(sorted(obj))))
+    ctx.count("st.list_valued_and_schema_arguments")
+    for opname, args in (("parse_object", [obj]), ("parse_object", [_to_ns(obj)])):
+        Probe(ctx, p, opname + "-list-valued", args, {}, readonly=True, w=w).run(p.parse_object)
+    ok = call(p.parse_object, copy.deepcopy(obj))
+    if ok.accepted:
+        for opname, fn in (("validate", p.validate), ("dump.yaml", p.dump), ("parse_object-of-result", p.parse_object)):
+            Probe(ctx, p, opname + "-list-valued", [ok.value], {}, readonly=True, w=w).run(fn)
+
+
 def run_shard(ctx):
     for i, rng in ctx.cases():
         zoo.CALLS.clear()
+        if i % 9 == 4:
+            case_list_valued(ctx, i, rng)
+            continue
         r = i % 5
         if r in (0, 1):
             case_generic(ctx, i, rng)
